@@ -417,6 +417,33 @@ def size : Fn → Nat
   | .cos a => size a + 1
   | .pow a _ => size a + 1
 
+/-- the tree mentions no variable below `nv` (no state / input entry): a *coefficient* — a constant or any function of
+the time variable -/
+def freeOf (nv : Nat) : Fn → Bool
+  | .const _ _ _ => true
+  | .var i => decide (nv ≤ i)
+  | .add a b => freeOf nv a && freeOf nv b
+  | .sub a b => freeOf nv a && freeOf nv b
+  | .mul a b => freeOf nv a && freeOf nv b
+  | .neg a => freeOf nv a
+  | .sin a => freeOf nv a
+  | .cos a => freeOf nv a
+  | .pow a _ => freeOf nv a
+
+/-- the tree is **affine in the variables below `nv`** (state and input) with coefficients that may depend on time in any
+way: sums, differences, negations of affine trees; products with one factor a coefficient; `sin` / `cos` / powers of
+coefficients only. (`A(t) x + B(t) u + c(t)` written as a tree — an LTI / LTV system given as an `NLS` — satisfies it.) -/
+def affineIn (nv : Nat) : Fn → Bool
+  | .const _ _ _ => true
+  | .var _ => true
+  | .add a b => affineIn nv a && affineIn nv b
+  | .sub a b => affineIn nv a && affineIn nv b
+  | .mul a b => (freeOf nv a && affineIn nv b) || (affineIn nv a && freeOf nv b)
+  | .neg a => affineIn nv a
+  | .sin a => freeOf nv a
+  | .cos a => freeOf nv a
+  | .pow a n => freeOf nv a || n == 0
+
 end Fn
 
 /-! ### explicit bounds: value, first-order part, second-order remainder
